@@ -9,16 +9,19 @@ RULES = {   # property -> [(finding id, predicate over [construct, slot, kind, c
   ('F-21', lambda x: x[1].endswith('|?') and 'raises' in x[4], 'function/definition.py: the formals reader does not expect a comment between a formal name and `?`', 'a comment between a formal parameter name and its `?` default makes parse raise ValueError on valid input'),
   ('F-30', lambda x: 'attrpath' in x[0] and x[1].endswith('|.'), 'binding.py: a line comment inside an attrpath is re-emitted without the line break that ends it', 'a line comment between an attrpath segment and the following dot swallows the rest of the binding: the output does not parse'),
   ('F-20', lambda x: x[0] in ('lambda_at', 'lambda_at_pre', 'lambda_formals_set') and x[1] == 'a|}', 'function/definition.py: multi-line formals are given a trailing comma, which the installed grammar rejects; with a comment after the last formal the comma is not adjacent to the brace', 'a comment after the last formal of a lambda without an ellipsis (plain or @-pattern) yields multi-line formals with a trailing comma that the installed tree-sitter grammar rejects'),
+  ('F-49', lambda x: x[3] == 'lead_ws', 'source_code.py:from_cst reads the gaps from the root node\'s text (which starts at the first token) with absolute offsets: in a file that begins with whitespace every gap is read at a shifted position; two existing tests pin a consequence (no final newline for inputs starting with a line break), so the one-line repair cannot be made with the suite unedited', 'in a file that begins with whitespace, line breaks after comments and blank lines are misread: a line comment swallows the code after it (`   (a # c\\n)` becomes `(a # c)`), comments move, layout is not stable'),
  ],
  'C03': [
   ('F-30', lambda x: 'attrpath' in x[0] and 'does not parse' in x[4], 'binding.py: a line comment inside an attrpath is re-emitted without the line break that ends it', 'a line comment between an attrpath segment and the following dot swallows the rest of the binding (the comment absorbs code; the output does not parse)'),
   ('F-40', lambda x: x[2] in ('two_b', 'b_then_eol_c', 'two_own_b'), 'trivia.py/function definition: a second comment on the line of a first one is re-attached (inline to the previous item) or replaces the first', 'two comments in one gap: the first is dropped (after a lambda colon) or the two swap places'),
   ('F-44', lambda x: x[0] in ('let_empty', 'let_empty_set') and x[1] == 'let|in', 'let.py: a binding-less `let in` is elided together with the trivia between `let` and `in`', 'a comment between `let` and `in` of a binding-less let is dropped when the wrapper is elided'),
   ('F-03', lambda x: x[0] in ('empty_formals_at', 'assert_list', 'assert_set', 'select_set', 'inherit_in_let', 'assert', 'assert_multi', 'inherit', 'inherit_multi', 'inherit_from', 'lambda_at', 'lambda_at_pre', 'select', 'select_or'), 'comments in the gaps of select paths, `or` defaults, @-patterns, `inherit` heads/tails and after `assert c;` are not captured by the readers (dropped) or are re-attached after the following token', 'a comment in one of the listed gaps is dropped or moves to the other side of a code token'),
+  ('F-49', lambda x: x[3] == 'lead_ws', 'source_code.py:from_cst reads the gaps from the root node\'s text (which starts at the first token) with absolute offsets: in a file that begins with whitespace every gap is read at a shifted position; two existing tests pin a consequence (no final newline for inputs starting with a line break), so the one-line repair cannot be made with the suite unedited', 'in a file that begins with whitespace, line breaks after comments and blank lines are misread: a line comment swallows the code after it (`   (a # c\\n)` becomes `(a # c)`), comments move, layout is not stable'),
  ],
  'C06': [
   ('F-45', lambda x: x[0] in ('let_empty', 'let_empty_set') and x[1].startswith('in|'), 'let.py: when a binding-less `let in` is elided the blank line that followed `in` stays in front of the body', 'eliding a binding-less `let in` followed by a blank line leaves that blank line before the body (at the top of a file: before the first token): not a fixed point'),
   ('F-34', lambda x: x[0] == 'select_or', 'select.py: blank lines around a comment before `or` are redistributed on each pass', 'a comment followed by blank lines before the `or` of a select default is not laid out stably (second pass differs)'),
+  ('F-49', lambda x: x[3] == 'lead_ws', 'source_code.py:from_cst reads the gaps from the root node\'s text (which starts at the first token) with absolute offsets: in a file that begins with whitespace every gap is read at a shifted position; two existing tests pin a consequence (no final newline for inputs starting with a line break), so the one-line repair cannot be made with the suite unedited', 'in a file that begins with whitespace, line breaks after comments and blank lines are misread: a line comment swallows the code after it (`   (a # c\\n)` becomes `(a # c)`), comments move, layout is not stable'),
  ],
  'C18': [
   ('F-47', lambda x: 'closing delimiter not at' in x[4] and 'more than one' not in x[4] and 'own-line comment' not in x[4], 'inherit.py / binding.py / call.py: a line break inside `inherit ( … )`, a comment inside an attrpath or glued to a function name leaves the closing delimiter on a line of its own at the wrong column', 'a closing `)` or `}` that starts a line is not at the indentation of the line that holds its opener (inherit sources written over two lines, comments inside attrpaths, a comment glued to a call head)'),
@@ -28,6 +31,7 @@ RULES = {   # property -> [(finding id, predicate over [construct, slot, kind, c
   ('F-22', lambda x: 'more than one blank line' in x[4] or x[0] in ('select', 'attrpath'), 'gap_lines are re-emitted verbatim around binary operators, after `:`, before a formal default, before `}` of formals and around comments there; gaps inside select paths and attrpaths are kept verbatim', 'runs of blank lines survive around binary operators, after a lambda colon, inside formals and select defaults; space runs and tabs inside select paths are kept'),
   ('F-31', lambda x: 'space before :' in x[4], 'function/definition.py: a block comment between the head and `:` is emitted with a space on both sides', 'a block comment between a lambda head and its colon leaves a space before `:`'),
   ('F-29', lambda x: 'more than one space' in x[4] and x[2] in ('inl_b', 'tight_b', 'tight_b_sp', 'two_b'), 'a block comment directly after a token on the same line (opener of an inline container, operator, function name) is laid out as an own-line comment without a line break before it', 'a block comment directly after `{`, `[`, `(`, an operator or a function name is followed by a line break, with a run of spaces before the comment'),
+  ('F-49', lambda x: x[3] == 'lead_ws', 'source_code.py:from_cst reads the gaps from the root node\'s text (which starts at the first token) with absolute offsets: in a file that begins with whitespace every gap is read at a shifted position; two existing tests pin a consequence (no final newline for inputs starting with a line break), so the one-line repair cannot be made with the suite unedited', 'in a file that begins with whitespace, line breaks after comments and blank lines are misread: a line comment swallows the code after it (`   (a # c\\n)` becomes `(a # c)`), comments move, layout is not stable'),
  ],
 }
 kf = json.load(open(os.path.join(V, 'known_findings.json')))
